@@ -898,6 +898,124 @@ class World:
         self.bump(f"sweep.build.points.{mode}", points)
         return {"op": "sweep_build", "outcome": "ok", "sd": f"N={N}", "points": points}
 
+    def op_sweep_coldproc(self, op):
+        """Crash points of the FIRST build (and first evaluation) in a process: every point is tried in its
+        own child forked from this still pristine process, so process-level lazily initialised state (a
+        module-level memo, a registry filled on first use) is cold each time.  In the child: the operation
+        is aborted at point k, then repeated un-faulted; the outcome must equal the one of a child in which
+        nothing was interrupted.  Must be the first op of its scenario (this process has not yet run any
+        formulae function)."""
+        import os
+        import pickle
+
+        if self.step != 0:
+            return {"op": "sweep_coldproc", "outcome": "skipped"}
+        client = self.clients[op["client"]]
+        train = self.frame(op["frame"])
+        ev_frame = self.frame(op["eval_frame"]) if op.get("eval_frame") else None
+        part = op.get("part", "common")
+        mode = op.get("mode", "line")
+        target = op.get("abort", "build")
+        if op.get("mode_value"):
+            formulae.config[KEY] = op["mode_value"]
+            self.mode = op["mode_value"]
+
+        def child(k, flavour):
+            r, w = os.pipe()
+            pid = os.fork()
+            if pid == 0:
+                os.close(r)
+                out = {}
+                try:
+                    def work():
+                        dm, _ = _do_build(client, op, train)
+                        res = None
+                        if ev_frame is not None and getattr(dm, part) is not None:
+                            res, _ = _do_eval(getattr(dm, part), ev_frame)
+                        return dm, res
+
+                    if k is None:
+                        try:
+                            dm, res = self.inj.run(work, at=None, mode=mode)
+                            out["n"] = self.inj.count
+                        except Exception as e:  # noqa: BLE001
+                            out["baseline_raise"] = type(e).__name__
+                            dm = res = None
+                    else:
+                        try:
+                            self.inj.run(work, at=k, flavour=flavour, mode=mode)
+                        except BaseException:  # noqa: BLE001 - the injected abort (or what it became)
+                            pass
+                        out["fired"] = self.inj.fired
+                        try:
+                            dm, res = work()
+                        except Exception as e:  # noqa: BLE001
+                            out["canary_raise"] = type(e).__name__
+                            dm = res = None
+                    if dm is not None:
+                        out["obs"] = {"design": observe_design(dm),
+                                      "eval": None if res is None else observe_part(res, part)}
+                    out["config"] = _safe(lambda: formulae.config[KEY])
+                except BaseException as e:  # noqa: BLE001
+                    out = {"child_error": f"{type(e).__name__}: {e}"}
+                try:
+                    data = pickle.dumps(out, protocol=4)
+                    os.write(w, len(data).to_bytes(8, "little"))
+                    view = memoryview(data)
+                    while view:
+                        n = os.write(w, view[:65536])
+                        view = view[n:]
+                finally:
+                    os._exit(0)
+            os.close(w)
+            buf = b""
+            while True:
+                chunk = os.read(r, 1 << 20)
+                if not chunk:
+                    break
+                buf += chunk
+            os.close(r)
+            _, status = os.waitpid(pid, 0)
+            if len(buf) < 8:
+                raise RuntimeError(f"cold-process child died (status {status}) at point {k}")
+            return pickle.loads(buf[8:])
+
+        base = child(None, "base")
+        if "child_error" in base:
+            raise RuntimeError("cold-process baseline: " + base["child_error"])
+        if "baseline_raise" in base or "obs" not in base:
+            return {"op": "sweep_coldproc", "outcome": "baseline-raise", "sd": base.get("baseline_raise", "?")}
+        N = base["n"]
+        ks = op.get("ks") or list(range(1 + op.get("offset", 0) % max(1, op.get("stride", 7)), N + 1,
+                                        op.get("stride", 7)))[: op.get("max_points", 150)]
+        flavours = op.get("flavours") or ["base", "exc"]
+        points = 0
+        for j, k in enumerate(ks):
+            fl = flavours[j % len(flavours)]
+            got = child(k, fl)
+            points += 1
+            if "child_error" in got:
+                raise RuntimeError("cold-process child: " + got["child_error"])
+            if got.get("fired"):
+                self.bump(f"fault.fired.inject.coldproc.{mode}.{fl}")
+                self.probe(f"abort_in:{got['fired'][0]}:{got['fired'][1]}")
+            d = None
+            if "canary_raise" in got:
+                d = f"the repeated operation raised {got['canary_raise']}"
+            elif got.get("config") != base.get("config"):
+                d = f"formulae.config is {got.get('config')!r} afterwards, {base.get('config')!r} without interruption"
+            else:
+                d = compare_obs(base["obs"], got["obs"], "coldproc", self.stats)
+            if d:
+                self.fail("A", "post-abort-canary", "canary-coldproc",
+                          f"in a fresh process the first design_matrices({op['formula']!r})"
+                          f"{' + evaluate_new_data' if ev_frame is not None else ''} was aborted at {mode} event {k} "
+                          f"({fl}, {got.get('fired')}); repeating it in that process gives something else than a "
+                          f"process that was never interrupted: {d}", {"sweep": {"k": k, "flavour": fl}})
+        self.bump("sweep.coldproc.ops")
+        self.bump("sweep.coldproc.points", points)
+        return {"op": "sweep_coldproc", "outcome": "ok", "sd": f"N={N}", "points": points}
+
     # -- after every step -----------------------------------------------------------------
     def after_step(self, op, sweep=False):
         extra = {"sweep": dict(self.sweep_ctx)} if sweep and getattr(self, "sweep_ctx", None) else None
